@@ -16,6 +16,14 @@
 (* tryAcquire: between the test `clock() < openUntil` having failed and            *)
 (* toHalfOpen() (hook "breaker.acquire.expired"): Begin parks the caller there     *)
 (* (pc = "exp") and Resume(c) performs toHalfOpen + the select.                    *)
+(* With SplitTransition = TRUE the opening transition of record() is two steps,    *)
+(* as in the code: EndMid(c, out) = add + threshold decision + transitionTo(Open)  *)
+(* up to its clock read (b.mu held, nothing stored yet: pc = "mid"), Finish(c) =   *)
+(* openUntil.Store, state.Store, unlock, release.  While a caller is in the        *)
+(* middle, steps of others that would block on b.mu are not generated (an End that *)
+(* needs a transition, a stale Resume); everything else interleaves: in particular *)
+(* a Begin of another caller reads the OLD state, so the rule "no admission while  *)
+(* open and before openUntil" is exposed to the order of the two stores.           *)
 (* Defects = {} is the repaired design (test and transition are one atomic step);  *)
 (*   "StaleHalfOpen"  the code as it is: a resumed caller runs transitionTo(       *)
 (*                    HalfOpen) on whatever the state is by then, although its     *)
@@ -32,6 +40,7 @@ CONSTANTS NB,        \* number of buckets (options.buckets)
           Callers,   \* logical caller threads
           Outcomes,  \* subset of {"ok","fail","cancel","deadline","panic"}
           SplitAcquire, \* BOOLEAN: model the interleaving point inside tryAcquire
+          SplitTransition, \* BOOLEAN: model transitionTo(Open) as two steps (clock read under b.mu | stores)
           Defects    \* subset of {"StaleHalfOpen"}
 
 VARIABLES state,      \* "closed" | "open" | "halfopen"
@@ -114,6 +123,9 @@ Init == /\ state = "closed"
         /\ last = [op |-> "Init", c |-> "", out |-> "", res |-> "", a |-> 0, b |-> 0]
 
 \* ------------------------------------------------------------------ Execute
+\* nobody is in the middle of a transition (holding b.mu)
+NoMid == \A c \in Callers : pc[c] # "mid"
+
 \* the select on semCh in tryAcquire
 Select(c) ==
   IF sem < HalfMax
@@ -159,6 +171,7 @@ Begin(c) ==
 \* the caller parked before toHalfOpen continues: toHalfOpen() and the select
 Resume(c) ==
   /\ pc[c] = "exp"
+  /\ NoMid
   /\ IF "StaleHalfOpen" \in Defects
      THEN \* transitionTo(HalfOpen) as written: only "already half-open" stops it
           /\ IF state # "halfopen"
@@ -178,6 +191,14 @@ Pre(c) ==
 Records(out) == out # "cancel"      \* ctx.Err() == context.Canceled: neither trips nor heals
 
 \* fn returns with outcome `out`; record(); deferred release()
+\* what record() decides after the add: "open" (toOpen), "close" (toClosed) or "none"
+Decision(w1) ==
+  LET s == Succ(w1)
+      f == Fail(w1)
+  IN IF ~Enough(s, f) THEN "none"
+     ELSE IF f * RateDen >= RateNum * (s + f) THEN "open"
+     ELSE IF state = "halfopen" THEN "close" ELSE "none"
+
 End(c, out) ==
   /\ pc[c] = "in"
   /\ pc' = [pc EXCEPT ![c] = "idle"]
@@ -186,20 +207,42 @@ End(c, out) ==
   /\ IF ~Records(out) THEN UNCHANGED <<state, openUntil, win, aw>>
      ELSE LET w1 == Add(win, now, out = "ok")
               a1 == AAdd(aw, now, out = "ok")
-              s  == Succ(w1)
-              f  == Fail(w1)
-          IN IF ~Enough(s, f) THEN win' = w1 /\ aw' = a1 /\ UNCHANGED <<state, openUntil>>
-             ELSE IF f * RateDen >= RateNum * (s + f)
-             THEN \* toOpen: no-op when already open (openUntil is not extended)
-                  /\ win' = w1 /\ aw' = a1
-                  /\ IF state = "open" THEN UNCHANGED <<state, openUntil>>
-                     ELSE state' = "open" /\ openUntil' = now + OpenTO
-             ELSE IF state = "halfopen"
-             THEN \* toClosed: the window is reset after the add
-                  /\ state' = "closed" /\ win' = HardReset(now) /\ aw' = AReset(now)
-                  /\ UNCHANGED openUntil
-             ELSE win' = w1 /\ aw' = a1 /\ UNCHANGED <<state, openUntil>>
+              d  == Decision(w1)
+          IN \* a transition needs b.mu: not while another caller is in the middle of one (with SplitTransition the
+             \* opening transition can also be taken in two steps, EndMid + Finish)
+             /\ (d # "none" => NoMid)
+             /\ CASE d = "none" -> win' = w1 /\ aw' = a1 /\ UNCHANGED <<state, openUntil>>
+                  [] d = "open" ->
+                       \* toOpen: no-op when already open (openUntil is not extended)
+                       /\ win' = w1 /\ aw' = a1
+                       /\ IF state = "open" THEN UNCHANGED <<state, openUntil>>
+                          ELSE state' = "open" /\ openUntil' = now + OpenTO
+                  [] d = "close" ->
+                       \* toClosed: the window is reset after the add
+                       /\ state' = "closed" /\ win' = HardReset(now) /\ aw' = AReset(now)
+                       /\ UNCHANGED openUntil
   /\ UNCHANGED now
+
+\* record() up to the clock read inside transitionTo(Open): the outcome is in the window, b.mu is held,
+\* neither openUntil nor the state is stored yet
+EndMid(c, out) ==
+  /\ SplitTransition /\ NoMid
+  /\ pc[c] = "in" /\ Records(out)
+  /\ LET w1 == Add(win, now, out = "ok") IN
+     /\ Decision(w1) = "open" /\ state # "open"
+     /\ win' = w1 /\ aw' = AAdd(aw, now, out = "ok")
+  /\ pc' = [pc EXCEPT ![c] = "mid"]
+  /\ last' = [op |-> "EndMid", c |-> c, out |-> out, res |-> "", a |-> 0, b |-> 0]
+  /\ UNCHANGED <<state, openUntil, sem, tok, now>>
+
+\* openUntil.Store(clock + openTimeout); state.Store(Open); unlock; deferred release()
+Finish(c) ==
+  /\ pc[c] = "mid"
+  /\ state' = "open" /\ openUntil' = now + OpenTO
+  /\ pc' = [pc EXCEPT ![c] = "idle"]
+  /\ IF tok[c] THEN sem' = sem - 1 /\ tok' = [tok EXCEPT ![c] = FALSE] ELSE UNCHANGED <<sem, tok>>
+  /\ last' = [op |-> "EndFin", c |-> c, out |-> "", res |-> "", a |-> 0, b |-> 0]
+  /\ UNCHANGED <<win, aw, now>>
 
 \* Metrics(): snapshot() advances the window as a side effect
 MetricsOp ==
@@ -214,7 +257,8 @@ Tick ==
   /\ UNCHANGED <<state, openUntil, win, sem, pc, tok, aw>>
 
 Next == \/ \E c \in Callers : Begin(c) \/ Pre(c) \/ Resume(c)
-        \/ \E c \in Callers, o \in Outcomes : End(c, o)
+        \/ \E c \in Callers, o \in Outcomes : End(c, o) \/ EndMid(c, o)
+        \/ \E c \in Callers : Finish(c)
         \/ MetricsOp \/ Tick
 
 Spec == Init /\ [][Next]_vars
@@ -225,7 +269,7 @@ States == {"closed", "open", "halfopen"}
 TypeOK == /\ state \in States
           /\ win.cursor \in 0..NB-1
           /\ sem \in 0..HalfMax
-          /\ \A c \in Callers : pc[c] \in {"idle", "exp", "in"} /\ (tok[c] => pc[c] = "in")
+          /\ \A c \in Callers : pc[c] \in {"idle", "exp", "in", "mid"} /\ (tok[c] => pc[c] \in {"in", "mid"})
 
 \* C47(c): the semaphore counts exactly the callers holding a token, never more than HalfMax
 SemInv == sem = Cardinality({c \in Callers : tok[c]}) /\ sem <= HalfMax
@@ -271,7 +315,10 @@ ProbeRule ==
 \* closed admits everything; only Begin/End change the state; states change only along the machine
 ClosedRule == [][(last'.op = "Begin" /\ state = "closed") => last'.res = "admitted" /\ state' = "closed"]_vars
 Machine == [][state' # state =>
-                 \/ state = "closed"   /\ state' = "open"     /\ last'.op = "End"
+                 \/ state = "closed"   /\ state' = "open"     /\ last'.op \in {"End", "EndFin"}
                  \/ state = "open"     /\ state' = "halfopen" /\ last'.op = "Begin"
-                 \/ state = "halfopen" /\ state' \in {"open", "closed"} /\ last'.op = "End"]_vars
+                 \/ state = "halfopen" /\ state' \in {"open", "closed"} /\ last'.op \in {"End", "EndFin"}]_vars
+\* the two halves of the opening transition: the first changes neither the state nor the deadline
+MidRule == [][/\ (last'.op = "EndMid" => state' = state /\ openUntil' = openUntil)
+              /\ (last'.op = "EndFin" => state' = "open" /\ openUntil' = now + OpenTO)]_vars
 =============================================================================
